@@ -7,5 +7,9 @@ import "github.com/tdakkota/docker-logql/internal/zzverif/vkit"
 func main() {
 	vkit.Main(map[string]vkit.Check{
 		"C01": {Run: c01Run, Replay: c01Replay},
+		"C19": {Run: c19Run, Replay: c19Replay},
+		"C08": {Run: c08Run, Replay: c08Replay},
+		"C07": {Run: c07Run, Replay: c07Replay},
+		"C06": {Run: c06Run, Replay: c06Replay},
 	})
 }
